@@ -632,11 +632,12 @@ pub fn properties() -> Vec<Property> {
     },
     Property {
       id: "C06",
-      rule: "cases = pipeline over probing sources (cold polite/rude, harness hot, crate subjects, bounded-by-operator repeat/endless iterators); every subscriber ends by terminal or unsubscribe at a generated position; non-trivial = the ending happened while some source still had events to emit",
+      rule: "cases = pipeline over probing sources (cold polite/rude, harness hot, crate subjects, bounded-by-operator repeat/endless iterators); every subscriber ends by terminal or unsubscribe at a generated position; non-trivial = the ending happened while some source still had events to emit; conc_sched: the observe_on / subscribe_on scenarios of C05 with an unsubscribing thread under generated schedules - when everything has come to rest no source is left subscribed (also not one that subscribe_on subscribed only after the unsubscribe); non-trivial = the source still had events to emit after the unsubscribe call or was subscribed after it",
       assumptions: vec!["root endings are checked model-free; inner endings (early-finish operator in one branch) are checked against the reference interpreter in sub-check inner"],
       subs: vec![
         mk_sub("root", (1500, 30_000), |ctx| seq_strategy(c06_cfg(ctx)), c06_check),
         super::diff::sub_c06_inner(),
+        mk_sub("conc_sched", (500, 10_000), |ctx| super::conc::c09_strategy(ctx, true), super::conc::c06_conc_check),
       ],
     },
     Property {
